@@ -15,6 +15,14 @@ print(r.stdout[-1500:])
 if "VERIFICATION:- SUCCESSFUL" not in r.stdout:
     print("setup: kani warm-up failed")
     sys.exit(1)
+# warm the test-profile target dir used by replays, witness searches and bounded stand-ins
+kani_run.sync("/repo")
+r2 = subprocess.run(["cargo", "test", "--offline", "--lib", "--no-run", "--target-dir", kani_run.TEST_TARGET],
+                    cwd=kani_run.WORK, env=env, stdout=subprocess.PIPE, stderr=subprocess.STDOUT, text=True)
+print(r2.stdout[-600:])
+if r2.returncode != 0:
+    print("setup: test-profile warm-up failed")
+    sys.exit(1)
 v = subprocess.run(["verus", "--version"], capture_output=True, text=True)
 print(v.stdout.strip())
 print("setup ok")
